@@ -6,6 +6,7 @@ import (
 	"os"
 	"path/filepath"
 	"sort"
+	"strings"
 
 	"github.com/ogen-go/ogen/gen"
 
@@ -150,6 +151,12 @@ func c04Type(r *lp.Run, rng *lp.Rand, drv *gc.Driver, b *bodySpec, name string) 
 			return
 		}
 		if one["decoded"] != one["value"] {
+			// K17: a pointer-boxed optional nullable (recursive) member has one state for absent and null after
+			// decoding: a non-nil pointer to an unset optional is written as an absent member and comes back nil
+			if strings.ReplaceAll(value, "&absent", "nil") == fmt.Sprint(one["decoded"]) {
+				r.Known(lp.PropFail{Property: "C04", Class: "K17", What: "an absent recursive nullable optional member (a pointer to an unset optional) comes back as null (a nil pointer)", Input: in, Observed: fmt.Sprint(one["decoded"]) + " text=" + text, Expected: value})
+				return
+			}
 			fail("decoding the encoding yields a different value", fmt.Sprint(one["decoded"])+" text="+text, value)
 		}
 	}
